@@ -177,6 +177,15 @@ static void do_memzero(void* const ptr, const size_t len, char impl) {
     long off = 0;
     blk_t* b = blk_of(ptr, &off);
     e->a = b ? b->id : -1; e->b = off; e->c = (long)len;
+    if (!b) {
+        /* memory of a block the library has already released: reported (blk -2), not written - the allocator's own
+           bookkeeping lives there now, and a harness that dies of the library's use-after-free reports nothing */
+        for (int i = nblk - 1; i >= 0; --i)
+            if (!blks[i].live && (const char*)ptr >= (const char*)blks[i].p && (const char*)ptr < (const char*)blks[i].p + blks[i].size) {
+                e->a = -2; e->b = (const char*)ptr - (const char*)blks[i].p;
+                return;
+            }
+    }
     volatile uint8_t* p = ptr;
     for (size_t i = 0; i < len; ++i) p[i] = 0;
 }
